@@ -13,7 +13,8 @@
 EXTENDS Integers, Sequences, FiniteSets, TLC
 
 CONSTANTS RSize, MaxLen, WithIf,
-          NoAssign    \* TRUE: only ++ / -- / IOWrite / late declarations (no `=` anywhere)
+          NoAssign,   \* TRUE: only ++ / -- / IOWrite / late declarations (no `=` anywhere)
+          Repeat      \* the complete program is the body of an endless loop: further iterations executed here
 
 TopVars == {"a", "b", "c"}          \* declared at the top of main
 LateVars == {"d", "e"}              \* declared by a statement in the middle of the program
@@ -22,8 +23,8 @@ Outs == {0, 1}
 Mod == 2 ^ RSize
 Consts == {0, 1, 2, 3, Mod - 1, Mod \div 2}
 
-VARIABLES prog, env, outs, declared
-vars == <<prog, env, outs, declared>>
+VARIABLES prog, env, outs, declared, iter
+vars == <<prog, env, outs, declared, iter>>
 
 Atom == [k : {"const"}, n : Consts] \cup [k : {"var"}, v : Vars]
 Expr == Atom \cup [k : {"add", "mul"}, l : Atom, r : Atom]
@@ -48,7 +49,7 @@ Do(s, en, os) ==
     [] s.k = "dec" -> [env |-> [en EXCEPT ![s.v] = (@ + Mod - 1) % Mod], outs |-> os]
     [] s.k = "out" -> [env |-> en, outs |-> Append(os, <<s.o, Eval(s.e, en)>>)]
 
-Init == prog = <<>> /\ env = [v \in Vars |-> 0] /\ outs = <<>> /\ declared = TopVars
+Init == prog = <<>> /\ env = [v \in Vars |-> 0] /\ outs = <<>> /\ declared = TopVars /\ iter = 1
 
 \* the variables a statement mentions
 AtomVars(e) == IF e.k = "var" THEN {e.v} ELSE {}
@@ -62,23 +63,38 @@ Allowed(s) == StmtVars(s) \subseteq declared /\ (NoAssign => s.k \in {"inc", "de
 AddDecl(v) ==
   /\ Len(prog) < MaxLen /\ v \in LateVars \ declared
   /\ prog' = Append(prog, [k |-> "decl", v |-> v])
-  /\ declared' = declared \cup {v} /\ env' = [env EXCEPT ![v] = 0] /\ outs' = outs
+  /\ declared' = declared \cup {v} /\ env' = [env EXCEPT ![v] = 0] /\ outs' = outs /\ iter' = iter
 
 AddSimple(s) ==
-  /\ Len(prog) < MaxLen /\ Allowed(s) /\ UNCHANGED declared
+  /\ Len(prog) < MaxLen /\ Allowed(s) /\ UNCHANGED <<declared, iter>>
   /\ prog' = Append(prog, s)
   /\ LET d == Do(s, env, outs) IN env' = d.env /\ outs' = d.outs
 
 AddIf(s) ==
-  /\ Len(prog) < MaxLen /\ Allowed(s) /\ ~NoAssign /\ UNCHANGED declared
+  /\ Len(prog) < MaxLen /\ Allowed(s) /\ ~NoAssign /\ UNCHANGED <<declared, iter>>
   /\ prog' = Append(prog, s)
   /\ LET d == IF Eval(s.l, env) = Eval(s.r, env) THEN Do(s.t, env, outs) ELSE Do(s.f, env, outs)
      IN  env' = d.env /\ outs' = d.outs
 
+\* one more iteration of the loop whose body is the complete program (a variable declared in the
+\* body is a fresh zero in every iteration)
+DoAny(s, en, os) ==
+  CASE s.k = "decl" -> [env |-> [en EXCEPT ![s.v] = 0], outs |-> os]
+    [] s.k = "ifeq" -> (IF Eval(s.l, en) = Eval(s.r, en) THEN Do(s.t, en, os) ELSE Do(s.f, en, os))
+    [] OTHER -> Do(s, en, os)
+RECURSIVE RunFrom(_, _, _)
+RunFrom(i, en, os) == IF i > Len(prog) THEN [env |-> en, outs |-> os]
+                      ELSE LET d == DoAny(prog[i], en, os) IN RunFrom(i + 1, d.env, d.outs)
+Again ==
+  /\ Len(prog) = MaxLen /\ iter < Repeat
+  /\ LET d == RunFrom(1, env, outs) IN env' = d.env /\ outs' = d.outs
+  /\ iter' = iter + 1 /\ UNCHANGED <<prog, declared>>
+
 \* (written with an outer choice so that the simulator, which picks uniformly among the
 \* sub-actions it can split Next into, chooses an if statement about once in four steps)
 Next == \E w \in 1 .. 6 :
-          IF w = 1 /\ WithIf THEN \E s \in IfStmt : AddIf(s)
+          IF Len(prog) = MaxLen THEN (w = 1 /\ Again)
+          ELSE IF w = 1 /\ WithIf THEN \E s \in IfStmt : AddIf(s)
           ELSE IF w = 2 THEN \E v \in LateVars : AddDecl(v)
           ELSE \E s \in Simple : AddSimple(s)
 Spec == Init /\ [][Next]_vars
